@@ -26,7 +26,45 @@ def base(name):
     return name.split('@')[0]
 
 
+class _Done(object):
+    def __init__(self, rc, out):
+        self.returncode = rc; self.stdout = out
+
+
+def run_battery(fb, timeout):
+    """run a native battery on the real code; a battery that does not terminate (the code under test hangs it) is killed with its whole process
+    group and counts as 'did not run' (return code 3: the unit stays undecided) - never as a crash of the checker"""
+    import signal
+    pr = subprocess.Popen(['/venv/bin/python', os.path.join(ROOT, fb)], stdout=subprocess.PIPE, stderr=subprocess.DEVNULL, text=True, cwd='/repo',
+                          env=dict(os.environ, PYTHONPATH='/repo'), start_new_session=True)
+    try:
+        out, _ = pr.communicate(timeout=timeout)
+        rc = pr.returncode
+    except subprocess.TimeoutExpired:
+        out, rc = 'battery did not terminate within %d s' % timeout, 3
+    try:
+        os.killpg(pr.pid, signal.SIGKILL)          # workers the code under test may have left behind
+    except Exception:      # noqa
+        pass
+    try:
+        pr.communicate(timeout=5)
+    except Exception:      # noqa
+        pass
+    return _Done(rc, out or '')
+
+
 def main(argv=None):
+    try:
+        return _main(argv)
+    except SystemExit:
+        raise
+    except BaseException:
+        import traceback
+        print('CHECKER-ERROR the checker itself failed (not a verdict about the property):'); traceback.print_exc(file=sys.stdout)
+        return 3
+
+
+def _main(argv=None):
     argv = argv or sys.argv[1:]
     prop = argv[0]
     tier = os.environ.get('VERIF_TIER', 'quick')
@@ -54,7 +92,7 @@ def main(argv=None):
             fb = registry.bounded_for(o['job']) if hasattr(registry, 'bounded_for') else None
             done = False
             if fb:
-                p = subprocess.run(['/venv/bin/python', os.path.join(ROOT, fb)], capture_output=True, text=True, timeout=600, cwd='/repo', env=dict(os.environ, PYTHONPATH='/repo'))
+                p = run_battery(fb, 600)
                 last = (p.stdout.strip().splitlines() or [''])[-1]
                 if p.returncode == 0:
                     bounded.append({'unit': o['job'], 'stand_in': fb, 'verdict': 'clean within bound', 'detail': last[:300], 'reason_not_proved': o['undecided']}); done = True
@@ -72,7 +110,7 @@ def main(argv=None):
         if fb:
             if fb not in bounded_cache:
                 try:
-                    p = subprocess.run(['/venv/bin/python', os.path.join(ROOT, fb)], capture_output=True, text=True, timeout=600, cwd='/repo', env=dict(os.environ, PYTHONPATH='/repo'))
+                    p = run_battery(fb, 600)
                     bounded_cache[fb] = (p.returncode, (p.stdout.strip().splitlines() or [''])[-1])
                 except Exception as ex_:      # noqa
                     bounded_cache[fb] = (3, 'stand-in failed to run: %s' % ex_)
@@ -149,7 +187,7 @@ def main(argv=None):
             if fb:
                 if fb not in search_cache:
                     try:
-                        p_ = subprocess.run(['/venv/bin/python', os.path.join(ROOT, fb)], capture_output=True, text=True, timeout=900, cwd='/repo', env=dict(os.environ, PYTHONPATH='/repo'))
+                        p_ = run_battery(fb, 900)
                         search_cache[fb] = (p_.returncode, (p_.stdout.strip().splitlines() or [''])[-1][:3000])
                     except Exception as ex_:      # noqa
                         search_cache[fb] = (3, 'battery failed to run: %s' % ex_)
